@@ -276,7 +276,16 @@ class Sym:
         return engine().decide(self.e)
 
     def __index__(self):
-        raise EngineLimit("symbolic value used as a concrete index")
+        """concretise a (small, bounded) symbolic integer by case analysis: one path per feasible value"""
+        if self.e.sort() != z3.IntSort():
+            raise EngineLimit("non-integer symbolic value used as a concrete index")
+        eng = engine()
+        for k in range(0, 16):
+            if eng.decide(self.e == k):
+                return k
+        raise EngineLimit("symbolic value used as a concrete index (not within 0..15)")
+
+    __int__ = __index__
 
     # -- arithmetic ------------------------------------------------------------------------------
     def _bin(self, other, op, reflected=False):
